@@ -16,6 +16,17 @@ ArrIReal = z3.ArraySort(z3.IntSort(), z3.RealSort())
 FEAS = z3.Function("FEAS", ArrIReal, z3.IntSort(), RefSort, z3.BoolSort())
 
 
+def infra_shapes(s, inf):
+    """constraint matrix M x N, M limits, N phase angles (InfrastructureInfo._validate)"""
+    cm = inf.constraint_matrix
+    return And(cm.rows == inf.constraint_limits.len, cm.cols == inf.phases.len, cm.rows >= 0, cm.cols >= 0)
+
+
+def feas_callable(s, sch, inf):
+    """precondition of every feasibility query: consistent shapes, one rate per station"""
+    return And(infra_shapes(s, inf), sch.len == inf.phases.len)
+
+
 def feas(seq, infra):
     v = seq.v
     return FEAS(v.arrs[0], v.len, infra.ref)
@@ -27,12 +38,7 @@ def feas_with(seq, idx, val, infra):
     return FEAS(z3.Store(v.arrs[0], ty.to_z3num(idx), ty.to_real(val)), v.len, infra.ref)
 
 
-REG.contract(
-    U + "infrastructure_constraints_feasible",
-    params=dict(rates=Seq(Real), infrastructure=Ref("InfrastructureInfo")), ret=Bool, modifies=[],
-    assumed="numpy body not verified here: the result is treated as the abstract algorithm-side feasibility predicate FEAS(rates, infrastructure) "
-            "(a function of the vector's contents and the infrastructure object only, default tolerances)",
-    ensures=[C("is_FEAS", lambda old, new, ret: ret == feas(old.rates, old.infrastructure))])
+# utils.infrastructure_constraints_feasible is under contract in contracts/feasibility.py (C06): its result under the default arguments is FEAS
 
 
 # ---------------------------------------------------------------------------- discrete search
@@ -68,7 +74,8 @@ def _dmf_post(old, new, ret):
 REG.contract(
     SA + "discrete_max_feasible_rate",
     params=dict(station_index=Int, allowable_pilots=Seq(Real), schedule=Seq(Real), infrastructure=Ref("InfrastructureInfo")), ret=Real, modifies=[],
-    requires=[C("args", lambda s: And(s.station_index >= 0, s.station_index < s.schedule.len, s.allowable_pilots.len >= 1))],
+    requires=[C("args", lambda s: And(s.station_index >= 0, s.station_index < s.schedule.len, s.allowable_pilots.len >= 1)),
+              C("shapes", lambda s: feas_callable(s, s.schedule, s.infrastructure))],
     raises=[RaiseSpec("ValueError", lambda s: Not(feas(s.schedule, s.infrastructure)), iff=True, unchanged=True)],
     ensures=[C("search", _dmf_post, props=("C07", "C08"))],
     loops={0: LoopSpec(invariant=_dmf_inv, decreases=lambda s: s.feasible_idx + 1)},
@@ -94,7 +101,8 @@ REG.contract(
     BIS, params=dict(_index=Int, _lb=Real, _ub=Real, _schedule=Seq(Real)), ret=Real, modifies=[],
     requires=[C("bracket", lambda s: And(s._index >= 0, s._index < s.schedule.len, s.eps > 0,
                                          feas_with(s.schedule, s._index, s._lb, s.infrastructure),
-                                         Implies(s._lb < s._ub, Not(feas_with(s.schedule, s._index, s._ub, s.infrastructure)))))],
+                                         Implies(s._lb < s._ub, Not(feas_with(s.schedule, s._index, s._ub, s.infrastructure))))),
+              C("shapes", lambda s: feas_callable(s, s.schedule, s.infrastructure))],
     ensures=[C("bisection", _bis_post, props=("C07", "C08"))],
     extra=dict(closure=dict(schedule=Seq(Real), infrastructure=Ref("InfrastructureInfo"), eps=Real)),
 )
@@ -122,7 +130,8 @@ REG.contract(
     params=dict(station_index=Int, ub=Real, schedule=Seq(Real), infrastructure=Ref("InfrastructureInfo"), eps=Real, lb=Real), ret=Real, modifies=[],
     requires=[C("args", lambda s: And(s.station_index >= 0, s.station_index < s.schedule.len, s.eps > 0,
                                       # the caller has placed the session at its lower bound before the search
-                                      Eq(s.schedule[s.station_index], s.lb)))],
+                                      Eq(s.schedule[s.station_index], s.lb))),
+              C("shapes", lambda s: feas_callable(s, s.schedule, s.infrastructure))],
     raises=[RaiseSpec("ValueError", lambda s: Not(feas(s.schedule, s.infrastructure)), iff=True, unchanged=True)],
     ensures=[C("search", _mfr_post, props=("C07", "C08"))],
 )
@@ -184,7 +193,7 @@ def infra_wf(s, inf):
     i = z3.Int("i!iwf")
     k = z3.Const("k!iwf", ty.IdSort)
     sid = lambda ii: z3.Select(inf.station_ids.v.arrs[0], ii)
-    return And(n >= 0, inf.phases.len == n, inf.voltages.len == n, inf.max_pilot.len == n, inf.min_pilot.len == n,
+    return And(infra_shapes(s, inf), n >= 0, inf.phases.len == n, inf.voltages.len == n, inf.max_pilot.len == n, inf.min_pilot.len == n,
                inf.allowable_pilots.len == n, inf.is_continuous.len == n,
                FA([i], z3.Implies(z3.And(i >= 0, i < n), z3.And(z3.Select(d.dom, sid(i)), z3.Select(d.arrs[0], sid(i)) == i)),
                   patterns=[sid(i)]),
@@ -222,8 +231,21 @@ def ub_of(s, iface, sess):
     return z3.If(b < a, b, a)
 
 
-SORTP = z3.Function("sort_perm", z3.ArraySort(z3.IntSort(), RefSort), z3.IntSort(), z3.IntSort())
-SORTQ = z3.Function("sort_perm_inv", z3.ArraySort(z3.IntSort(), RefSort), z3.IntSort(), z3.IntSort())
+def preprocessed(s, q, inf, iface, name="pp"):
+    """what run_preprocessing leaves behind: every session's lower bound is at most its upper bound, and at a finite-rate station the lower
+    bound is itself one of the station's allowable levels (0, or the station's minimum pilot under uninterrupted charging)"""
+    j, m = z3.Int("j!" + name), z3.Int("m!" + name)
+    e = sess_at(s, q, j)
+    idx = st_index(inf, e.station_id)
+    ap = inf.allowable_pilots.v
+    return FA([j], z3.Implies(z3.And(j >= 0, j < q.len),
+                              z3.And(lb_of(e) <= ub_of(s, iface, e),
+                                     z3.Or(z3.Select(inf.is_continuous.v.arrs[0], idx),
+                                           z3.Exists([m], z3.And(m >= 0, m < z3.Select(ap.arrs[1], idx), z3.Select(z3.Select(ap.arrs[0], idx), m) == lb_of(e)))))),
+              patterns=[z3.Select(q.v.arrs[0], j)])
+
+
+from pyvc.seqlib import SORTP, SORTQ
 
 
 def is_permutation(ret, evs):
@@ -233,7 +255,8 @@ def is_permutation(ret, evs):
     return And(ret.len == evs.len,
                FA([j], z3.Implies(z3.And(j >= 0, j < ret.len), z3.And(P(j) >= 0, P(j) < evs.len, z3.Select(ra, j) == z3.Select(ea, P(j)), Q(P(j)) == j)),
                   patterns=[z3.Select(ra, j)]),
-               FA([i], z3.Implies(z3.And(i >= 0, i < evs.len), z3.And(Q(i) >= 0, Q(i) < ret.len, P(Q(i)) == i)), patterns=[Q(i)]))
+               FA([i], z3.Implies(z3.And(i >= 0, i < evs.len), z3.And(Q(i) >= 0, Q(i) < ret.len, P(Q(i)) == i, z3.Select(ra, Q(i)) == z3.Select(ea, i))),
+                  patterns=[Q(i), z3.Select(ea, i)]))
 
 
 REG.contract(
@@ -256,6 +279,8 @@ def _sa_loop0_inv(s):
     j = z3.Int("j!l0")
     e = sess_at(s, q, j)
     return [
+        ("queue_is_a_valid_session_list", sessions_ok(s, q, inf, "q0")),
+        ("queue_is_preprocessed", preprocessed(s, q, inf, s.self._interface, "q0p")),
         ("length", sch.len == inf.station_ids.len),
         ("served_sessions_at_their_lower_bound", FA([j], z3.Implies(z3.And(j >= 0, j < s._k),
                                                                    z3.Select(sch.v.arrs[0], st_index(inf, e.station_id)) == lb_of(e)),
@@ -272,11 +297,13 @@ def _sa_loop1_inv(s):
     val = z3.Select(sch.v.arrs[0], st_index(inf, e.station_id))
     lb, ub = lb_of(e), ub_of(s, iface, e)
     return [
+        ("queue_is_a_valid_session_list", sessions_ok(s, q, inf, "q1")),
+        ("queue_is_preprocessed", preprocessed(s, q, inf, iface, "q1p")),
         ("length", sch.len == inf.station_ids.len),
         ("C07.feasible_after_every_grant", feas(sch, inf)),
         ("pending_sessions_at_their_lower_bound", FA([j], z3.Implies(z3.And(j >= s._k, j < q.len), val == lb), patterns=[z3.Select(q.v.arrs[0], j)])),
         ("C07.granted_within_bounds", FA([j], z3.Implies(z3.And(j >= 0, j < s._k),
-                                                         z3.And(val >= z3.If(lb < ub, lb, ub), val <= z3.If(lb < ub, ub, lb), val >= 0)),
+                                                         z3.And(val >= lb, val <= ub)),
                                          patterns=[z3.Select(q.v.arrs[0], j)])),
         ("C07.zero_elsewhere", zero_unless_served(s, sch, q, inf, q.len, "l1z")),
     ]
@@ -308,6 +335,19 @@ def _sa_step(head, end):
     ] + [("continuous/" + t, Implies(cont, g)) for t, g in mfr_clauses(sch0, idx, inf, ub, lb, z3.RealVal("0.01"), r, tag="st")] + [
         ("C08.finite_rate_station_gets_its_largest_feasible_level", Implies(Not(cont), z3.Or(z3.And(is_level, higher_infeasible), z3.And(r == 0, none_feasible)))),
     ]
+
+
+def lower_bound_vector_infeasible(s, q, inf):
+    """the vector that puts every listed session at its lower bound and every other station at 0 is infeasible"""
+    v = z3.Const("v!lbv", ArrIReal)
+    j, i, j2 = z3.Int("j!lbv"), z3.Int("i!lbv"), z3.Int("j2!lbv")
+    e = sess_at(s, q, j)
+    n = inf.station_ids.len
+    return z3.Exists([v], z3.And(
+        FA([j], z3.Implies(z3.And(j >= 0, j < q.len), z3.Select(v, st_index(inf, e.station_id)) == lb_of(e)), patterns=[z3.Select(q.v.arrs[0], j)]),
+        FA([i], z3.Implies(z3.And(i >= 0, i < n, z3.Select(v, i) != 0),
+                           z3.Exists([j2], z3.And(j2 >= 0, j2 < q.len, st_index(inf, sess_at(s, q, j2).station_id) == i))), patterns=[z3.Select(v, i)]),
+        z3.Not(FEAS(v, n, inf.ref))))
 
 
 def _sa_post(old, new, ret):
@@ -342,9 +382,64 @@ REG.contract(
     requires=[C("interface_registered", lambda s: Not(IsNone(s.self._interface))),
               C("infrastructure_wf", lambda s: infra_wf(s, s.infrastructure)),
               C("levels_sorted", lambda s: all_levels_sorted(s.infrastructure)),
-              C("sessions", lambda s: sessions_ok(s, s.active_sessions, s.infrastructure))],
-    raises=[RaiseSpec("ValueError", lambda s: True, iff=False, unchanged=True)],
+              C("sessions", lambda s: sessions_ok(s, s.active_sessions, s.infrastructure)),
+              C("preprocessed", lambda s: preprocessed(s, s.active_sessions, s.infrastructure, s.self._interface))],
+    raises=[RaiseSpec("ValueError", lambda s: lower_bound_vector_infeasible(s, s.active_sessions, s.infrastructure), iff=False, unchanged=True)],
     ensures=[C("greedy", _sa_post, props=("C07",))],
     loops={0: LoopSpec(invariant=_sa_loop0_inv),
            1: LoopSpec(invariant=_sa_loop1_inv, step=_sa_step)},
 )
+
+
+# ============================================================================ the five priority orders (C08)
+SORTMOD = "acnportal.algorithms.sorted_algorithms."
+
+
+def net_max_pilot(s, iface, station):
+    net = iface._simulator.network
+    return z3.Select(net.max_pilot_signals.v.arrs[0], net_index(net, station))
+
+
+REG.contract(
+    IFACE + "max_pilot_signal", params=dict(self=Ref("Interface"), station_id=Id), ret=Real, modifies=[],
+    assumed="not yet verified from its body (Interface._infrastructure_info): the result is the network's cached maximum pilot of that station",
+    ensures=[C("C05.max_pilot_signal", lambda old, new, ret: ret == net_max_pilot(old, old.self, old.station_id))])
+
+
+def ordered_by(old, ret, key, decreasing=False):
+    i, j = z3.Int("i!ord"), z3.Int("j!ord")
+    ki, kj = key(sess_at(old, ret, i)), key(sess_at(old, ret, j))
+    return FA([i, j], z3.Implies(z3.And(i >= 0, i < j, j < ret.len), (ki >= kj) if decreasing else (ki <= kj)),
+              patterns=[z3.MultiPattern(z3.Select(ret.v.arrs[0], i), z3.Select(ret.v.arrs[0], j))])
+
+
+def _sort_contract(name, key, decreasing, requires=()):
+    REG.contract(
+        SORTMOD + name, params=dict(evs=Seq(Ref("SessionInfo")), iface=Ref("Interface")), ret=Seq(Ref("SessionInfo")), modifies=[],
+        requires=list(requires),
+        ensures=[C("C08.permutation_of_the_sessions", lambda old, new, ret: is_permutation(ret, old.evs)),
+                 C("C08.priority_order", lambda old, new, ret: ordered_by(old, ret, lambda e: key(old, e), decreasing))])
+
+
+def laxity_key(s, e):
+    iface = s.iface
+    return (z3.ToReal(e.estimated_departure - iface._simulator._iteration)
+            - rap(s, iface, e) / net_max_pilot(s, iface, e.station_id))
+
+
+def rpt_key(s, e):
+    iface = s.iface
+    return rap(s, iface, e) / net_max_pilot(s, iface, e.station_id)
+
+
+def max_pilots_nonzero(s):
+    j = z3.Int("j!mpz")
+    return FA([j], z3.Implies(z3.And(j >= 0, j < s.evs.len), net_max_pilot(s, s.iface, sess_at(s, s.evs, j).station_id) != 0),
+              patterns=[z3.Select(s.evs.v.arrs[0], j)])
+
+
+_sort_contract("first_come_first_served", lambda s, e: e.arrival, False)
+_sort_contract("last_come_first_served", lambda s, e: e.arrival, True)
+_sort_contract("earliest_deadline_first", lambda s, e: e.estimated_departure, False)
+_sort_contract("least_laxity_first", laxity_key, False, requires=[C("max_pilot_nonzero", max_pilots_nonzero)])
+_sort_contract("largest_remaining_processing_time", rpt_key, True, requires=[C("max_pilot_nonzero", max_pilots_nonzero)])
